@@ -52,6 +52,7 @@ pub struct GoRec {
     pub n_best: u32,
     pub stop_read_seq: Option<u64>,
     pub stop_store_tp: Option<u64>,
+    pub stop_store_seq: Option<u64>,
     pub stop_kind: Option<&'static str>,
     pub search_exit_polls: Option<u64>,
     pub search_exited: bool,
@@ -483,6 +484,7 @@ pub fn analyse_session(case: &Case, out: &Outcome) -> Analysis {
                     } else if let Some(gi) = outstanding {
                         if gos[gi].stop_read_seq.is_some() && gos[gi].stop_store_tp.is_none() {
                             gos[gi].stop_store_tp = Some(e.tp);
+                            gos[gi].stop_store_seq = Some(e.seq);
                             if gos[gi].search_start_seq.is_none() {
                                 a.probe("stop processed before the search thread started");
                             }
@@ -593,6 +595,17 @@ pub fn analyse_session(case: &Case, out: &Outcome) -> Analysis {
                 }
                 if t.outs_after_false > 0 {
                     a.v("C07", "R2-not-prompt", g.cmd, format!("search of `{}` reported {} more info line(s) after it had observed the stop", g.line, t.outs_after_false));
+                }
+            }
+        }
+        // C07-R2 measured from the arrival of the stop: after the stop/timer store on this search's flag at most one more
+        // iteration may be reported (the one whose nodes were already done, or a root answered from the table)
+        {
+            let arrival = [g.stop_store_seq, g.timer_store_seq].iter().flatten().min().copied();
+            if let Some(t0) = arrival {
+                let later = g.infos.iter().filter(|(seq, _, _)| *seq > t0).count();
+                if later > 1 && g.raise_seq.map_or(true, |r| r < t0) {
+                    a.v("C07", "R2-not-prompt", g.cmd, format!("`{}`: {} further iterations were completed and reported after the stop had arrived", g.line, later));
                 }
             }
         }
@@ -773,6 +786,7 @@ pub fn analyse_direct(case: &Case, out: &Outcome) -> Analysis {
     let mut g = GoRec::default();
     let mut saw_false_poll: Option<u64> = None;
     let mut polls_at_false_out: Option<u64> = None;
+    let mut pre_stopped = false;
     let mut gos = vec![];
     for e in &out.events {
         match &e.k {
@@ -784,7 +798,9 @@ pub fn analyse_direct(case: &Case, out: &Outcome) -> Analysis {
                         Some("begin") => {
                             k = Some(idx);
                             let item = &case.items[idx];
-                            let stop: Option<u64> = it.next().and_then(|s| s.strip_prefix("stop=")).and_then(|s| s.parse().ok());
+                            let stop_tok = it.next().and_then(|s| s.strip_prefix("stop=")).unwrap_or("-").to_string();
+                            let stop: Option<u64> = stop_tok.parse().ok();
+                            pre_stopped = stop_tok == "pre";
                             // the moves actually searched (table-guided items choose them at run time)
                             let run_moves: Option<Vec<String>> = it.next().and_then(|s| s.strip_prefix("moves=")).map(|s| s.split(',').filter(|x| !x.is_empty()).map(|x| x.to_string()).collect());
                             a.cur_k = stop;
@@ -823,9 +839,21 @@ pub fn analyse_direct(case: &Case, out: &Outcome) -> Analysis {
                                 if g.n_best == 1 {
                                     a.answered_gos += 1;
                                 }
-                                let stopped = saw_false_poll.is_some();
+                                let stopped = saw_false_poll.is_some() || pre_stopped;
                                 if stopped {
-                                    g.stop_kind = Some("flag flipped at chosen poll");
+                                    g.stop_kind = Some(if pre_stopped { "stop pending before the search started" } else { "flag flipped at chosen poll" });
+                                }
+                                if pre_stopped {
+                                    // the stop arrived before the search began: at most one iteration (a root answered from the
+                                    // table or a single-reply root, neither of which expands a node) may still be reported
+                                    if g.infos.len() > 1 {
+                                        a.v("C07", "R2-not-prompt", idx as u32, format!("{}: the stop was pending before the search started, yet {} iterations were completed and reported", g.line, g.infos.len()));
+                                    }
+                                    if end_polls > 1 {
+                                        a.v("C07", "R2-not-prompt", idx as u32, format!("{}: the stop was pending before the search started, yet {} nodes were polled", g.line, end_polls));
+                                    }
+                                    a.stops_observed += 1;
+                                    a.distinct_keys.push(format!("{}|{}|{}|pre", idx, item.root, item.moves.len()));
                                 }
                                 check_answer(&mut a, &g, stopped);
                                 check_pvs(&mut a, &g);
